@@ -592,6 +592,9 @@ func checkC20(w *World, r *Report) {
 		}
 	})
 
+	r.Rule("R20.7", "a check that runs on the already filtered children never turns a filtered-away child into an error: in BuildList's walk over the unique paths every error is about a child that was found", 1)
+	r.guard("R20.7", func() { c20UniqueWalk(w, r) })
+
 	r.Rule("R20.2", "filter predicates and combinators: IsConfig = node.Config(); IsState = ¬IsConfig ∧ ¬IsOpd; Include is a disjunction, Exclude its negation, nil members are skipped; IncludeState(true) = IsState, IncludeState(false) = Exclude(IsState)", 5)
 	r.guard("R20.2", func() {
 		// IsState
